@@ -227,7 +227,7 @@ def simulate_scene(scene: Scene, obj=None, probes=None) -> np.ndarray:
 
 def build_library(scene: Scene, intensities: np.ndarray, *, com_fit="no_shift", install_truth=True, obj_init=None, seed=0, detector_mask=None,
                   val_ratio=0.0, val_mode="grid", learn_descan=False, learn_scan_positions=False, orthogonalize=True, vectorized=True, probe_from="params",
-                  detector_units="A^-1", dset_pre=(), pt_twice=False, dataset_file=None, probe_order=None):
+                  detector_units="A^-1", dset_pre=(), pt_twice=False, dataset_file=None, probe_order=None, array_form="c32"):
     """Runs the library's own construction + preprocessing on the simulated data and returns the Ptychography object.
 
     obj_init: None -> truth object installed via ObjectPixelated.from_array; "uniform" -> library default initial object.
@@ -247,8 +247,19 @@ def build_library(scene: Scene, intensities: np.ndarray, *, com_fit="no_shift", 
             dq = [scene.recip_sampling[0] * scene.wavelength * 1e3, scene.recip_sampling[1] * scene.wavelength * 1e3]
         else:
             dq = [scene.recip_sampling[0], scene.recip_sampling[1]]
+        arr4 = np.ascontiguousarray(intensities, dtype=np.float32)
+        if array_form == "f32":
+            arr4 = np.asfortranarray(arr4)
+        elif array_form == "c64":
+            arr4 = arr4.astype(np.float64)  # (the float32-rounded values, so that the data are the same numbers)
+        elif array_form == "ro32":
+            arr4.setflags(write=False)
+        elif array_form == "strided":
+            big = np.zeros(arr4.shape[:-1] + (arr4.shape[-1] * 2,), dtype=np.float32)
+            big[..., ::2] = arr4
+            arr4 = big[..., ::2]
         d4 = Dataset4dstem.from_array(
-            array=np.asarray(intensities, dtype=np.float32), name="vf-scene", origin=np.zeros(4),
+            array=arr4, name="vf-scene", origin=np.zeros(4),
             sampling=[scene.scan_step_A[0], scene.scan_step_A[1], dq[0], dq[1]], units=["A", "A", detector_units, detector_units],
         )
         if dataset_file is not None:
